@@ -2,6 +2,7 @@ package eng
 
 import (
 	"fmt"
+	"os"
 	"go/ast"
 	"go/types"
 	"sort"
@@ -25,6 +26,8 @@ type footprint struct {
 	Bank   bool
 	Err    string
 	Time   bool
+	// IterMods: "module\x00prefix" of the store iterators the body creates; the result then depends on verOf(module, prefix)
+	IterMods []string
 }
 
 var fpMemo = map[*FuncInfo]*footprint{}
@@ -110,7 +113,17 @@ func (x *Exec) footprintOf(fi *FuncInfo) *footprint {
 			}
 		}
 		fp.Time = true
+		for m := range dx.iterMods {
+			fp.IterMods = append(fp.IterMods, m)
+		}
+		sort.Strings(fp.IterMods)
 	}()
+	if os.Getenv("GOVC_DEBUG_FP") != "" {
+		fmt.Fprintf(os.Stderr, "footprint %s: err=%q leaves=%d bank=%v iter=%v\n", fi.Name, fp.Err, len(fp.Leaves), fp.Bank, fp.IterMods)
+		for _, l := range fp.Leaves {
+			fmt.Fprintf(os.Stderr, "   %s %q\n", l.Fam, l.Path)
+		}
+	}
 	return fp
 }
 
@@ -147,6 +160,11 @@ func (x *Exec) applyPure(s *State, fi *FuncInfo, recv *Value, args []*Value, cal
 	}
 	if fp.Bank {
 		uargs = append(uargs, w.Bal, w.Supply)
+	}
+	for _, m := range fp.IterMods {
+		if i := strings.IndexByte(m, 0); i >= 0 {
+			uargs = append(uargs, w.verOf(m[:i], m[i+1:]))
+		}
 	}
 	uargs = append(uargs, w.Height, w.Time)
 	base := "pure." + sanitize(strings.ReplaceAll(x.Pr.fnTagOf(fi), "/", "."))
